@@ -158,13 +158,13 @@ fn eval_bytes(prop: &str, b: &[u8]) -> Outcome {
         "C11" => {
             let mut viols = Vec::new();
             let mut tag = String::new();
-            for &strip in &[1usize, 0] {
+            for &strip in &[1usize, 0, std::usize::MAX] {
                 let (v, t) = parsecase::check_c11(b, strip, &mut seen);
                 if strip == 1 { tag = t; }
                 viols.extend(v);
                 if !viols.is_empty() { break; }
             }
-            Outcome { viols, seen, execs: 2, tag }
+            Outcome { viols, seen, execs: 3, tag }
         }
         "C12" => {
             let (v, t) = parsecase::check_c12(b, &mut seen);
